@@ -22,6 +22,9 @@ def cases(ctx):
             k = rng.randrange(len(tx.outputs))
             ln = rng.choice([248, 249, 250, 251, 252, 253, 254, 255, 256, 65535, 65536])
             tx.outputs[k] = TxOutput(tx.outputs[k].amount, Script([G.rbytes(rng, ln).hex()]))
+            if rng.random() < 0.4:
+                from harness.props.c05 import exact_len_script
+                tx.outputs[k] = TxOutput(tx.outputs[k].amount, Script(exact_len_script(rng, rng.choice([252, 253, 254, 65534, 65535, 65536, 65537]))))
         line = tx_to_line(tx)
         idxs = range(len(tx.inputs)) if rng.random() < 0.3 else [rng.randrange(len(tx.inputs))]
         for i in idxs:
